@@ -270,6 +270,7 @@ type seg struct {
 	closing bool // the server closes right after its last byte, and the Read that returns that byte also returns EOF
 	inner   time.Duration // > 0: the pieces (split at cuts) are sent one by one with this idle time before each
 	far     bool          // the caller's context carries a deadline one hour away (it never fires)
+	follow  bool          // after Do, a Ping on the same client (the peer answers it once it has seen it); its outcome goes to Outcome.Aux
 }
 
 func body03(k c03case) Body { return body03seg(k, seg{perPkt: true}, "C03") }
@@ -434,6 +435,9 @@ func body03seg(k c03case, sg seg, prop string) Body {
 			c.C.Cuts = append(c.C.Cuts, c.HsIn+cut)
 		}
 		c.C.OneByte = sg.oneByte
+		if sg.follow {
+			steps = append(steps, Step{Name: "await-ping", AwaitN: 3}, Step{Name: "pong", Send: Pong()})
+		}
 		c.RunPeer("peer", c.HsLen, steps, nil)
 		doCtx := context.Background()
 		if sg.far {
@@ -442,6 +446,22 @@ func body03seg(k c03case, sg seg, prop string) Body {
 			defer cancelFar()
 		}
 		derr := c.Cl.Do(doCtx, q)
+		aux := ""
+		if sg.follow {
+			// what the next request on this client sees: whatever of the stream Do left unread,
+			// then the peer's Pong. Wherever those bytes sit (transport or read-ahead buffer),
+			// the request must end the same way.
+			vsched.Quiet(func() {
+				if c.Cl.IsClosed() {
+					aux = "closed"
+					return
+				}
+				pctx, pcancel := context.WithTimeout(context.Background(), 10*time.Second)
+				perr := c.Cl.Ping(pctx)
+				pcancel()
+				aux = fmt.Sprintf("ping=%s closed-after=%v", errClass(perr), c.Cl.IsClosed())
+			})
+		}
 		vsched.Quiet(func() { _ = c.Cl.Close() })
 
 		wantTrace, wantRes := k.expected()
@@ -480,16 +500,16 @@ func body03seg(k c03case, sg seg, prop string) Body {
 			case strings.HasPrefix(wantRes, "exception"):
 				cls = "exception-chain"
 			}
-			return Outcome{Obs: obs, Key: prop + "/return/" + cls, Detail: fmt.Sprintf("Do returned %q (%v), the reference interpreter expects %q; callback trace so far %v", got, derr, wantRes, trace)}
+			return Outcome{Obs: obs, Aux: aux, Key: prop + "/return/" + cls, Detail: fmt.Sprintf("Do returned %q (%v), the reference interpreter expects %q; callback trace so far %v", got, derr, wantRes, trace)}
 		}
 		if strings.Join(trace, "\n") != strings.Join(wantTrace, "\n") {
 			cls := "content"
 			if len(trace) != len(wantTrace) {
 				cls = "count"
 			}
-			return Outcome{Obs: obs, Key: prop + "/callback-trace/" + cls + "/" + k.binding, Detail: fmt.Sprintf("callbacks observed:\n  %s\nexpected:\n  %s", strings.Join(trace, "\n  "), strings.Join(wantTrace, "\n  "))}
+			return Outcome{Obs: obs, Aux: aux, Key: prop + "/callback-trace/" + cls + "/" + k.binding, Detail: fmt.Sprintf("callbacks observed:\n  %s\nexpected:\n  %s", strings.Join(trace, "\n  "), strings.Join(wantTrace, "\n  "))}
 		}
-		return Outcome{Obs: obs}
+		return Outcome{Obs: obs, Aux: aux}
 	}
 }
 
